@@ -5,8 +5,9 @@ VERIF = os.path.dirname(os.path.dirname(os.path.abspath(__file__)))
 sys.path.insert(0, os.path.join(VERIF, "lib")); sys.path.insert(0, os.path.join(VERIF, "checks"))
 props = [json.loads(l)["id"] for l in open(os.path.join(VERIF, "properties.jsonl"))]
 checks, na = [], []
+claimed = set(open(os.path.join(VERIF, "claimed.txt")).read().split())
 for p in props:
-    if not os.path.exists(os.path.join(VERIF, "checks", p + ".py")):
+    if p not in claimed or not os.path.exists(os.path.join(VERIF, "checks", p + ".py")):
         na.append({"property_id": p, "reason": "check not built yet in this development (planned, see DESIGN.md section 5); not claimed"})
         continue
     m = importlib.import_module(p)
